@@ -79,38 +79,40 @@ def run(tier, corrupt=False):
                     if r["prog"] in acc:
                         cases.append({"kind": "de", "prog": r["prog"], "data": r["data"], "ch0": r["ch0"], "dfuel": r["dfuel"]})
                         meta.append(("de", r["prog"], r["ch0"], r["dfuel"], r["data"], r["modes"]))
-                imp, results = run_drivers_parallel(src, wt, accepted, types, cases)
-                if imp:
-                    v.violation("generated package not importable", imp.strip().splitlines()[-1], {"trace": imp})
-                    results = []
                 n = nfault = 0
-                for m, o in zip(meta, results):
-                    n += 1
-                    if "harness_error" in o:
-                        raise MachineryError(o["harness_error"])
-                    kind, prog, mode0, fuel, payload, mmodes = m
-                    if o.get("ctor_exc"):
-                        continue
-                    if o.get("exc") == "Fault":
-                        nfault += 1
-                    calls = o["calls"]
-                    if corrupt and n == 40 and calls:
-                        calls = [list(calls[0][:3]) + [not calls[0][2], False]] + calls[1:]
-                    end = o["san_end"] if kind == "ser" else o["ch_end"]
-                    bad = mode_violations(calls)
-                    if end is not None and end != mode0:
-                        bad.append({"cls": prog, "call": "top-level " + ("serialize" if kind == "ser" else "deserialize"), "entry": mode0, "exit": end, "raised": bool(o.get("exc"))})
-                    # "never read or sanitised as chunked unless it says so, and vice versa": the mode in force at every primitive call
-                    if mmodes is not None and not o.get("exc") == "TimeoutError" and o.get("modes") is not None and o["modes"] != mmodes:
-                        k_ = next((i for i, (a, b_) in enumerate(zip(o["modes"], mmodes)) if a != b_), min(len(o["modes"]), len(mmodes)))
-                        key = f"{prog} mode at primitive call #{k_ + 1} entry={mode0} fault_at={fuel} input={short(payload, 160)}"
-                        v.violation(key, f"primitive {'writer' if kind == 'ser' else 'reader'} call #{k_ + 1} ran with mode {o['modes'][k_] if k_ < len(o['modes']) else 'n/a'}, "
-                                         f"the declaration gives {mmodes[k_] if k_ < len(mmodes) else 'n/a'} (observed trace {o['modes'][:12]}, model {mmodes[:12]})",
-                                    {"kind": kind, "prog": prog, "mode0": mode0, "fuel": fuel, "input": payload, "observed_modes": o["modes"], "model_modes": mmodes})
-                    for b in bad[:2]:
-                        key = f"{prog} {b['cls']}.{b['call']} entry={b['entry']} exit={b['exit']} raised={b['raised']} fault_at={fuel} input={short(payload, 160)}"
-                        v.violation(key, f"{b['cls']}.{b['call']} was entered with mode {b['entry']} and left it {b['exit']} "
-                                         f"({'raising ' + o.get('exc', '') if b['raised'] else 'returning'})", {"kind": kind, "prog": prog, "mode0": mode0, "fuel": fuel, "input": payload, "calls": calls})
+                BATCH = 50000               # results carry the call log of every case: judged batch by batch
+                for b0 in range(0, len(cases), BATCH):
+                    imp, results = run_drivers_parallel(src, wt, accepted, types, cases[b0:b0 + BATCH])
+                    if imp:
+                        v.violation("generated package not importable", imp.strip().splitlines()[-1], {"trace": imp})
+                        break
+                    for m, o in zip(meta[b0:b0 + BATCH], results):
+                        n += 1
+                        if "harness_error" in o:
+                            raise MachineryError(o["harness_error"])
+                        kind, prog, mode0, fuel, payload, mmodes = m
+                        if o.get("ctor_exc"):
+                            continue
+                        if o.get("exc") == "Fault":
+                            nfault += 1
+                        calls = o["calls"]
+                        if corrupt and n == 40 and calls:
+                            calls = [list(calls[0][:3]) + [not calls[0][2], False]] + calls[1:]
+                        end = o["san_end"] if kind == "ser" else o["ch_end"]
+                        bad = mode_violations(calls)
+                        if end is not None and end != mode0:
+                            bad.append({"cls": prog, "call": "top-level " + ("serialize" if kind == "ser" else "deserialize"), "entry": mode0, "exit": end, "raised": bool(o.get("exc"))})
+                        # "never read or sanitised as chunked unless it says so, and vice versa": the mode in force at every primitive call
+                        if mmodes is not None and not o.get("exc") == "TimeoutError" and o.get("modes") is not None and o["modes"] != mmodes:
+                            k_ = next((i for i, (a, b_) in enumerate(zip(o["modes"], mmodes)) if a != b_), min(len(o["modes"]), len(mmodes)))
+                            key = f"{prog} mode at primitive call #{k_ + 1} entry={mode0} fault_at={fuel} input={short(payload, 160)}"
+                            v.violation(key, f"primitive {'writer' if kind == 'ser' else 'reader'} call #{k_ + 1} ran with mode {o['modes'][k_] if k_ < len(o['modes']) else 'n/a'}, "
+                                             f"the declaration gives {mmodes[k_] if k_ < len(mmodes) else 'n/a'} (observed trace {o['modes'][:12]}, model {mmodes[:12]})",
+                                        {"kind": kind, "prog": prog, "mode0": mode0, "fuel": fuel, "input": payload, "observed_modes": o["modes"], "model_modes": mmodes})
+                        for b in bad[:2]:
+                            key = f"{prog} {b['cls']}.{b['call']} entry={b['entry']} exit={b['exit']} raised={b['raised']} fault_at={fuel} input={short(payload, 160)}"
+                            v.violation(key, f"{b['cls']}.{b['call']} was entered with mode {b['entry']} and left it {b['exit']} "
+                                             f"({'raising ' + o.get('exc', '') if b['raised'] else 'returning'})", {"kind": kind, "prog": prog, "mode0": mode0, "fuel": fuel, "input": payload, "calls": calls})
             tot["n"] += n
             tot["nfault"] += nfault
             for k_, s_ in (("s1", s1), ("s2", s2), ("s3", s3)):
@@ -118,7 +120,7 @@ def run(tier, corrupt=False):
             if tot["first_meta"] is None:
                 tot["first_meta"] = meta[0]
             tot["last_meta"] = meta[-1]
-            del r1, r2, r3, sers, des, cases, results
+            del r1, r2, r3, sers, des, cases
         sel, s1, s2, s3, n, nfault = all_sel, tot["s1"], tot["s2"], tot["s3"], tot["n"], tot["nfault"]
         meta = [tot["first_meta"], tot["last_meta"]]
     cov = {"states": s1["states"] + s2["states"] + s3["states"], "transitions": s1["transitions"] + s2["transitions"] + s3["transitions"],
